@@ -34,6 +34,8 @@ pub enum CovKind {
 pub struct Wallet {
     pub keys: Vec<(Ed25519PK, Ed25519SK)>,
     pub reg: HashMap<Address, (Vec<u8>, CovKind)>,
+    /// only signature covenants and always-true for new outputs (workloads that are about something else)
+    pub simple: bool,
 }
 
 pub fn cov_bytes(kind: &CovKind, keys: &[(Ed25519PK, Ed25519SK)]) -> Vec<u8> {
@@ -83,7 +85,7 @@ impl Wallet {
             // deterministic keys from the seeded rng
             keys.push(crate::keys::from_seed(&seed));
         }
-        Wallet { keys, reg: HashMap::new() }
+        Wallet { keys, reg: HashMap::new(), simple: false }
     }
 
     pub fn address(&mut self, kind: CovKind) -> Address {
@@ -95,7 +97,7 @@ impl Wallet {
 
     pub fn random_address(&mut self, r: &mut StdRng) -> Address {
         let nk = self.keys.len();
-        let kind = match r.gen_range(0..40) {
+        let kind = match if self.simple { r.gen_range(0..30) } else { r.gen_range(0..40) } {
             0..=11 => CovKind::Legacy(r.gen_range(0..nk)),
             12..=23 => CovKind::New(r.gen_range(0..nk)),
             24..=29 => CovKind::True,
